@@ -327,21 +327,29 @@ def run_one(ctx, out, main, files, events, swallowed, mode, fmt, xlev, numeric, 
     while ncommon < len(en) and ncommon < len(on) and en[ncommon] == on[ncommon]:
         ncommon += 1
     if en != on:
-        if ncommon < len(en):
-            e = events[ncommon]
-            c = e['ctx']
-            got = on[ncommon] if ncommon < len(on) else 'nothing'
-            where = 'expect' if (c['in_expect'] or e['num'] == 2130 or got == 2130) else 'sequence'
-            key = '%s:%s:expected-%d-got-%s:%s' % (where, fmt, e['num'], got, c['shape'].split('>')[-1])
-            msg = 'diagnostic %d of %d: expected #%d (%s) at %s in %s, observed %s' % (
-                ncommon + 1, len(en), e['num'], c['fkind'], describe(e['pos']), c['shape'],
-                obs[ncommon]['raw'] if ncommon < len(obs) else 'nothing more')
+        # one key per KIND of divergence (not per number pair / construct):
+        #   missing-diagnostic:<fault kind>   a planted fault was passed over (the next observed message belongs to a later plant)
+        #   diagnostic-for-unplanted-line     a message although nothing (more) was planted there
+        #   other-diagnostic:<fault kind>     something else was reported in its place
+        # family 'expect' when the divergence sits inside an EXPECT block or is about 'expected error did not occur'
+        e = events[ncommon] if ncommon < len(en) else None
+        o = obs[ncommon] if ncommon < len(on) else None
+        if e is not None and (o is None or o['hnum'] in en[ncommon + 1:ncommon + 4]):
+            what = 'missing-diagnostic:%s' % e['ctx']['fkind']
+        elif o is not None and (e is None or e['num'] in on[ncommon + 1:ncommon + 4]):
+            what = 'diagnostic-for-unplanted-line'
         else:
-            o = obs[ncommon]
-            where = 'expect' if o['hnum'] == 2130 else 'sequence'
-            key = '%s:%s:unexpected-%d' % (where, fmt, o['hnum'])
-            msg = 'after the %d expected diagnostics: %s — nothing was planted there' % (len(en), o['raw'])
-        out.violate(key, '%s: %s' % (tag, msg))
+            what = 'other-diagnostic:%s' % e['ctx']['fkind']
+        fam = 'expect' if ((e is not None and (e['ctx']['in_expect'] or e['num'] == 2130)) or (o is not None and o['hnum'] == 2130)) else 'sequence'
+        if fam == 'expect' and e is not None and e['num'] == 2130 and what.startswith('missing'):
+            what = 'announced-but-absent-number-not-reported'
+        elif fam == 'expect' and o is not None and o['hnum'] == 2130 and what == 'diagnostic-for-unplanted-line':
+            what = 'absent-report-without-announcement'
+        msg = 'diagnostic %d of %d: expected %s, observed %s' % (
+            ncommon + 1, len(en),
+            ('#%d (%s) at %s in %s' % (e['num'], e['ctx']['fkind'], describe(e['pos']), e['ctx']['shape'])) if e is not None else 'nothing more',
+            o['raw'] if o is not None else 'nothing more')
+        out.violate('%s:%s' % (fam, what), '%s: %s' % (tag, msg))
     # ---- positions, one by one over the common prefix
     seen_keys = set()
     for e, o in zip(events[:ncommon], obs[:ncommon]):
